@@ -17,7 +17,7 @@ FLD = _P % 10            # 0: text of the child element is symbolic, 1: its tail
 AKIND = (_P // 10) % 10  # attribute kind on the child: 0 plain, 1 prefixed, 2 xml:, 3 prefixed with a prefix the child re-declares
 MAXLEN = bound(3)
 XMLNS = "http://www.w3.org/XML/1998/namespace"
-ALPHA = "ab \t\n  "
+ALPHA = "ab \t\n\u00a0\u2003"
 
 
 def in_alpha(s: str) -> bool:
@@ -95,7 +95,7 @@ def _policy(t: Optional[str], clean: bool, collapse: bool, literal: bool) -> Opt
     if len(t) > 0:
         only = True
         for ch in t:
-            if ch != " " and ch != "\t" and ch != " ":
+            if ch != " " and ch != "\t" and ch != "\u00a0":
                 only = False
         if only:
             return t
